@@ -19,7 +19,7 @@ from harness import core, values as V, diffcommon as D
 
 THEOREM_FILE = "Properties/C04.v"
 COQCHK = ["Properties.C04"]
-RULE = ("pairs: (a) lists over a 4-atom alphabet, length <= 12, related by insert/delete/replace/move/duplicate/rotate edits, planted under 0-2 "
+RULE = ("pairs: (a) lists over a 4-atom alphabet, length <= 12, related by insert/delete/replace/move/duplicate/rotate edits (plus an adjacent swap behind an insertion: the K17 shape in a quarter of them), planted under 0-2 "
         "common container levels; (a') dicts with 4-8 common keys inserted in different orders, and t2 with all dicts rebuilt in shuffled insertion order (20%); (b) random nested values and edit scripts (1-3 edits); (c) pairs with one to three set / frozenset pairs holding ==-aliased numbers (1 / True / 1.0 ...) at list positions, dict values or nested (5%); "
         "one container object at two positions of t1 in 15% + a dedicated 4% stream; x verbose {1,2} x threshold {0,0.33,0.9}, default "
         "alignment (zip_ordered_iterables=False). Non-trivial = the diff is non-empty; distinct by (t1, t2).")
@@ -234,6 +234,35 @@ def check_entries(ctx, t1, t2, res, verbose, cfg, skip=None):
             bad("moved item does not resolve", p)
 
 
+def has_set(v):
+    if isinstance(v, (set, frozenset)):
+        return True
+    if isinstance(v, dict):
+        return any(has_set(x) for x in v.values())
+    if isinstance(v, (list, tuple)):
+        return any(has_set(x) for x in v)
+    return False
+
+
+def check_set_items(ctx, t1, t2, cfg):
+    """set_item_added / set_item_removed (an added / removed item of an iterable that has no index): the level's
+    parent path resolves, on the item's side, to a set that holds the reported item (C04_entries_resolve, kinds
+    KSetAdd / KSetRem).  Tree view: the text form root[<item>] cannot be told from a subscript."""
+    from deepdiff import DeepDiff, extract
+    r = DeepDiff(copy.deepcopy(t1), copy.deepcopy(t2), view="tree", threshold_to_diff_deeper=cfg["thr"])
+    for cat, side, root in (("set_item_added", "t2", t2), ("set_item_removed", "t1", t1)):
+        for lv in r.get(cat, []) or []:
+            item, ppath = getattr(lv, side), lv.up.path()
+            try:
+                s = extract(root, ppath)
+            except Exception:
+                s = None
+            ctx.count("set_item_level_checked")
+            if not (isinstance(s, (set, frozenset)) and any(V.typed_eq(m, item) for m in s)):
+                ctx.fail(dict(t1=repr(t1), t2=repr(t2), clause=cat + ": not a member of the set at its path", path=ppath,
+                              item=repr(item), **cfg), "entry not backed by the inputs: %s %r at %s" % (cat, item, ppath))
+
+
 def py_keys_ok(v):
     """harness reading of Diff/TextFaithful.keys_ok (C09's guard on every dict key at any depth)"""
     if isinstance(v, dict):
@@ -394,6 +423,21 @@ def gen_pairs(ctx, n):
                                 kinds = kinds + ["retype_alias"]
                                 break
                 ctx.count("gen:atom_list_alias")
+            elif rng.random() < 0.17:
+                # an adjacent swap behind an insertion: difflib removes an item at index i and adds an equal one at
+                # index i in about a quarter of these (the shape of C04_K17_exact), shifted replace blocks in others
+                n = rng.randint(3, 8)
+                a = [rng.choice(["a", "b", "c", 1, True]) for _ in range(n)]
+                b = list(a)
+                j = rng.randrange(1, n)
+                b[j - 1], b[j] = b[j], b[j - 1]
+                b.insert(rng.randrange(0, j), rng.choice(["z", "a", 2]))
+                if rng.random() < 0.3:
+                    b.append(rng.choice(["a", "q"]))
+                if rng.random() < 0.3:
+                    a, b = tuple(a), tuple(b)
+                kinds = ["swap_behind_insert"]
+                ctx.count("gen:swap_behind_insert")
             else:
                 a, b, kinds = V.gen_atom_list_pair(rng)
             t1, t2 = V.plant(rng, rng.choice([0, 0, 1, 2]), (a, b))
@@ -436,6 +480,45 @@ def gen_pairs(ctx, n):
             ctx.count("gen:one_container_object_at_two_positions:" + side)
         out.append((t1, t2))
     return out
+
+
+def observe_exactness(ctx, t1, t2, r, cfg):
+    """BOTH directions of C04_K17_exact and of C04_shifted_levels_source / C04_shifted_pairs_reported observed on
+    the implementation: the levels predicted from the recorded difflib opcodes alone (a block removes t1 index i, a
+    block adds t2 index i, the items are ==; the not-== pairs of the replace blocks whose chunks start at different
+    indexes) must be exactly the values_changed levels with identical values / the changed levels with two paths."""
+    from deepdiff import extract
+    from deepdiff.model import FORCE_DEFAULT
+    p17, pshift = set(), set()
+    for q, ops in r._iterable_opcodes.items():
+        try:
+            a, b = extract(t1, q), extract(t2, q)
+        except Exception:
+            ctx.count("exactness:recorded list under a key that does not parse back (C09): skipped")
+            return
+        tup = [(o.tag, o.t1_from_index, o.t1_to_index, o.t2_from_index, o.t2_to_index) for o in ops]
+        for i in range(min(len(a), len(b))):
+            if py_removes_at(tup, i) and py_adds_at(tup, i) and a[i] == b[i]:
+                p17.add("%s[%d]" % (q, i))
+        for tag, i1, i2, j1, j2 in tup:
+            if tag == "replace" and i1 != j1:
+                for k in range(min(i2 - i1, j2 - j1)):
+                    if not (a[i1 + k] == b[j1 + k]):
+                        pshift.add(("%s[%d]" % (q, i1 + k), "%s[%d]" % (q, j1 + k)))
+    o17 = {lv.path(force=FORCE_DEFAULT) for lv in (r.get("values_changed", []) or []) if not (lv.t1 != lv.t2)}
+    oshift = set()
+    for cat in ("values_changed", "type_changes"):
+        for lv in r.get(cat, []) or []:
+            pa, pb = lv.path(force=FORCE_DEFAULT), lv.path(use_t2=True, force=FORCE_DEFAULT)
+            if pa != pb:
+                oshift.add((pa, pb))
+    ctx.count("exactness:K17 levels predicted from the opcodes = observed", len(p17))
+    ctx.count("exactness:shifted levels predicted from the opcodes = observed", len(pshift))
+    if p17 != o17 or pshift != oshift:
+        ctx.break_("correspondence", {"name": "C04_K17_exact / C04_shifted_* on the implementation",
+                                      "detail": "levels predicted from the recorded opcodes differ from the reported ones",
+                                      "t1": repr(t1), "t2": repr(t2), "cfg": cfg, "k17_predicted": sorted(p17), "k17_observed": sorted(o17),
+                                      "shifted_predicted": sorted(pshift), "shifted_observed": sorted(oshift)})
 
 
 def marks_cases(ctx, t1, t2, cases, budget):
@@ -482,6 +565,7 @@ def one_pair(ctx, t1, t2, cases, corr=True, mcases=None, budget=None, skip=None)
             ctx.count("pass1_won(opcodes recorded)" if r._iterable_opcodes else "pass2_or_single")
             if not unmod:
                 ctx.fail(dict(t1=repr(t1), t2=repr(t2), clause="inputs modified", **cfg), "DeepDiff modified an input")
+            observe_exactness(ctx, t1, t2, r, cfg)
             if thr == thr_text and budget is not None and budget[1] > 0 and (isinstance(t1, dict) or ctx.rng.random() < 0.25):
                 budget[1] -= 1
                 # the entry-local guard of C04_text_*_local on this run: Coq's count against the harness's reading of the tree
@@ -513,6 +597,8 @@ def one_pair(ctx, t1, t2, cases, corr=True, mcases=None, budget=None, skip=None)
                 continue
             ctx.seen((repr(t1), repr(t2), thr, verbose), nontrivial=bool(res))
             check_entries(ctx, t1, t2, res, verbose, cfg, skip=skip)
+        if (thr == thr_text or not corr) and has_set(t1) and has_set(t2) and (skip is None):
+            check_set_items(ctx, t1, t2, cfg)
 
 
 def replay_witnesses(ctx):
@@ -531,7 +617,7 @@ def replay_witnesses(ctx):
 def run(ctx):
     pairs = gen_pairs(ctx, 6000 if ctx.thorough else 900)
     cases, mcases = [], []
-    budget = [2500 if ctx.thorough else 200, 4000 if ctx.thorough else 300]
+    budget = [2500 if ctx.thorough else 160, 4000 if ctx.thorough else 300]
     for t1, t2 in pairs:
         one_pair(ctx, t1, t2, cases, mcases=mcases, budget=budget)
     budget[1] = 10 ** 6           # every hostile-key pair gets its local-guard case
